@@ -237,10 +237,13 @@ def runLoop : Nat → Nat → St → Except Err Out
 /-- `SNF3x3(A).run()` with at most `fuel` iterations of `for _ in self` -/
 def run (fuel : Nat) (A : M3 Int) : Except Err Out := runLoop fuel 0 (St.init A)
 
-/-- executable description of a Smith normal form triple (used by certificates) -/
+/-- executable description of what `SNF3x3` promises (docstring: `D = PAQ`, `abs(det A) = det D`,
+`det P = 1`, `det Q = sgn det A`; "the diagonal elements don't follow the rule" of the textbook form) -/
 def isSNF (A : M3 Int) (o : Out) : Bool :=
   o.D = o.P * A * o.Q && o.D.isDiag && decide (0 < o.D.a00) && decide (0 < o.D.a11) && decide (0 < o.D.a22)
-    && decide (o.D.a11 % o.D.a00 = 0) && decide (o.D.a22 % o.D.a11 = 0)
     && decide (o.P.det = 1) && decide (o.Q.det = 1 ∨ o.Q.det = -1)
+
+/-- the textbook divisibility chain `d₀ ∣ d₁ ∣ d₂` (not guaranteed by the algorithm) -/
+def hasChain (o : Out) : Bool := decide (o.D.a11 % o.D.a00 = 0) && decide (o.D.a22 % o.D.a11 = 0)
 
 end PhononModel.SNF
